@@ -1,6 +1,8 @@
 package engine
 
 import (
+	"os"
+	"sync/atomic"
 	"strings"
 	"fmt"
 	"sync"
@@ -72,6 +74,11 @@ func (x *Explorer) Run(entry *ssa.Function) *ExploreStats {
 				return
 			}
 			defer eng.Close()
+			if lf := os.Getenv("GOSYM_SESSION_LOG"); lf != "" && w == 0 {
+				f, _ := os.Create(lf)
+				SessionLog = f
+				eng.solver.LogAll = true
+			}
 			eng.emit = func(it WorkItem) {
 				mu.Lock()
 				queue = append(queue, it)
@@ -110,7 +117,19 @@ func (x *Explorer) Run(entry *ssa.Function) *ExploreStats {
 						eng.solver.Transcript = &sb.Builder
 					}
 				}
+				slowDir := os.Getenv("GOSYM_SLOW_DUMP")
+				if slowDir != "" && eng.solver.Transcript == nil {
+					eng.solver.Reset()
+					eng.solver.Transcript = &strings.Builder{}
+				}
+				st0 := eng.solver.SolverTime
 				res := eng.RunPath(entry, it)
+				if slowDir != "" {
+					if d := eng.solver.SolverTime - st0; d > 100*time.Millisecond && atomic.AddInt32(&slowDumps, 1) < 20 {
+						os.WriteFile(fmt.Sprintf("%s/slow-%d-%d.smt2", slowDir, w, time.Now().UnixNano()), []byte(eng.solver.Transcript.String()), 0o644)
+					}
+					eng.solver.Transcript = nil
+				}
 				mu.Lock()
 				if eng.solver.Transcript != nil && len(st.Transcripts) < x.KeepTranscripts {
 					st.Transcripts = append(st.Transcripts, eng.solver.Transcript.String())
@@ -188,5 +207,7 @@ func (x *Explorer) Run(entry *ssa.Function) *ExploreStats {
 	}
 	return st
 }
+
+var slowDumps int32
 
 type stringsBuilder struct{ Builder strings.Builder }
